@@ -69,6 +69,9 @@ inductive Act
   | add (ev : Nat) (h : Handler)
   | removeKey (ev key : Nat)
   | removeAll (ev : Nat)
+  | replace (ev : Nat) (h : Handler)   -- replace_handler(ev, callback h.pid, h.prio, **h.kw); h.key names the new entry
+  | removeFn (pid : Nat)               -- remove_handler(method)
+  | removeEvFn (ev pid : Nat)          -- remove_handler_by_event(ev, handler)
   deriving DecidableEq, Repr
 
 structure Prog where
@@ -111,6 +114,29 @@ def removeKey (reg : Reg) (ev key : Nat) : Reg := regSet reg ev ((regGet reg ev)
 
 def removeAll (reg : Reg) (ev : Nat) : Reg := regSet reg ev []
 
+/-- `rh.kwargs == kwargs` on dicts without duplicate keys: same size and the same value under every key
+(the order of the items does not matter) -/
+def kwSame (a b : Kw) : Bool := a.length == b.length && a.all (fun p => kwGet b p.1 == some p.2)
+
+/-- entries `replace_handler(event, handler, priority, **kwargs)` removes: the callback is identified by its program id
+(`rh[0] == handler`); with kwargs the registered kwargs must be equal as well, without kwargs every entry of that
+callback goes -/
+def replaceMatches (h x : Handler) : Bool :=
+  if h.kw.isEmpty then x.pid == h.pid else x.pid == h.pid && kwSame x.kw h.kw
+
+/-- `replace_handler`: remove the matching entries of this event, then `add_handler` (append + stable sort: the new
+entry lands behind every entry of the same or a higher priority) -/
+def replaceHandler (reg : Reg) (ev : Nat) (h : Handler) : Reg :=
+  regSet reg ev (sortDesc ((regGet reg ev).filter (fun x => !replaceMatches h x) ++ [h]))
+
+/-- `remove_handler(method)`: every entry of that callback, under every event -/
+def removeFn : Reg → Nat → Reg
+  | [], _ => []
+  | (e, hs) :: r, pid => (e, hs.filter (fun x => x.pid != pid)) :: removeFn r pid
+
+/-- `remove_handler_by_event(event, handler)` (kwargs are not looked at) -/
+def removeEvFn (reg : Reg) (ev pid : Nat) : Reg := regSet reg ev ((regGet reg ev).filter (fun x => x.pid != pid))
+
 /-! ## the bus without its queues -/
 
 structure Core where
@@ -129,6 +155,9 @@ def runAct (c : Core) : Act → Core × List Posted
   | .add ev h => ({ c with reg := addHandler c.reg ev h }, [])
   | .removeKey ev key => ({ c with reg := removeKey c.reg ev key }, [])
   | .removeAll ev => ({ c with reg := removeAll c.reg ev }, [])
+  | .replace ev h => ({ c with reg := replaceHandler c.reg ev h }, [])
+  | .removeFn pid => ({ c with reg := removeFn c.reg pid }, [])
+  | .removeEvFn ev pid => ({ c with reg := removeEvFn c.reg ev pid }, [])
 
 def runActs (c : Core) : List Act → Core × List Posted
   | [] => (c, [])
@@ -316,6 +345,9 @@ def parseAct (toks : List String) : Option Act :=
   | ["A", ev, h] => do pure (.add (← ev.toNat?) (← parseHandler h))
   | ["R", ev, key] => do pure (.removeKey (← ev.toNat?) (← key.toNat?))
   | ["X", ev] => do pure (.removeAll (← ev.toNat?))
+  | ["H", ev, h] => do pure (.replace (← ev.toNat?) (← parseHandler h))
+  | ["M", pid] => do pure (.removeFn (← pid.toNat?))
+  | ["E", ev, pid] => do pure (.removeEvFn (← ev.toNat?) (← pid.toNat?))
   | _ => none
 
 /-- acts separated by the token `|` -/
